@@ -48,6 +48,7 @@ type c03World struct {
 	sockMark              uint32
 	hist                  []string // textual history (witness)
 	lastConn, lastHandoff []byte
+	pressure bool
 	failed                bool
 }
 
@@ -535,6 +536,15 @@ func (w *c03World) model(st *c03Step) c03Expect {
 }
 
 func (w *c03World) check(st *c03Step, e c03Expect, res *vk.PktRes) {
+	if w.pressure {
+		w.m.Count("frames_under_map_pressure", 1)
+		for _, ev := range res.Events {
+			if ev.Kind == 3 {
+				w.m.Count("overflow_events_under_pressure", 1)
+			}
+		}
+		return
+	}
 	if !e.judge {
 		w.m.Count("frames_not_judged", 1)
 		return
@@ -954,7 +964,7 @@ func TestVerifC03(t *testing.T) {
 		defer k.Close()
 		w.ks[i] = k
 	}
-	nprog := vk.Scale(60, 6000)
+	nprog := vk.Scale(200, 8000)
 	perProg := 20
 	gen := &vk.RGen{R: r, Groups: verifGroups, NeighbourBias: 0.1, V6Slash0: true, MaxRules: 8}
 	for i := 0; i < nprog && m.Violations() < 3; i++ {
@@ -973,6 +983,16 @@ func TestVerifC03(t *testing.T) {
 		w.sockMark = []uint32{0, 0x4000, 0x80}[r.IntN(3)]
 		w.setParam()
 		w.initAlive()
+		// every 10th program runs under conn_state_map pressure (2 entries): the fail-closed
+		// branches are reached; only parser-path agreement and sanitizer reports are judged there.
+		w.pressure = i%10 == 9
+		for _, k := range w.ks {
+			if w.pressure {
+				k.SetMax("conn_state_map", 2)
+			} else {
+				k.SetMax("conn_state_map", 1<<18)
+			}
+		}
 		if !w.loadRules(gen.Gen()) {
 			continue
 		}
@@ -986,6 +1006,6 @@ func TestVerifC03(t *testing.T) {
 		}
 	}
 	m.Require("verdict_ok", "verdict_shot", "verdict_redirect", "records_recovered_from_conn_state", "records_recovered_from_handoff",
-		"hostile_frames", "wan_origin_reply_probes", "tcp_restart_on_syn", "udp_redecided_after_idle", "rule_swaps_midflow", "domain_changes_midflow", "alive_flips", "dae_own_pid_flows")
+		"hostile_frames", "wan_origin_reply_probes", "tcp_restart_on_syn", "udp_redecided_after_idle", "rule_swaps_midflow", "domain_changes_midflow", "alive_flips", "dae_own_pid_flows", "frames_under_map_pressure", "overflow_events_under_pressure")
 	m.Done(t)
 }
